@@ -38,7 +38,7 @@ Judge(r) ==
   LET d == r.scn IN
   IF r.obs.kind = "ok"
     THEN LET samples == Rng(r.obs.samples)
-             refok == \A s \in samples :
+             refok == ("proxy" \in DOMAIN d) \/ \A s \in samples :
                          /\ s.roundtrip = RefRoundtripV(d, s.v)
                          /\ Canon(s.json) = Canon(RefValue(d, s.v, s.some))
                          /\ \A p \in Rng(s.probes) : p.ok = RefProbeOk(d, s.v, p.path)
